@@ -180,6 +180,15 @@ type Case struct {
 	H       HdrS   `json:"h"`
 	Verdict int    `json:"verdict"`
 	Err     string `json:"err,omitempty"`
+
+	ext *hdrExt // set by the header-path cases: frame fields of the header under verification
+}
+
+type hdrExt struct {
+	parentHash common.Hash
+	time       uint64
+	mixBad     bool
+	cht        bool
 }
 
 // ---- world construction -----------------------------------------------------
@@ -426,6 +435,12 @@ func build(c *Case) *built {
 	if c.H.ParentBad == 3 {
 		h.ParentHash = otherHash
 	}
+	if c.ext != nil {
+		h.ParentHash, h.Time = c.ext.parentHash, c.ext.time
+		if c.ext.cht {
+			h.ChtRoot, h.BltRoot = []byte{1, 2, 3}, []byte{4}
+		}
+	}
 	if !c.H.Cons.Nil {
 		cs := c.H.Cons
 		cd := &ucon.BlockConsensusData{Round: new(big.Int).SetUint64(cs.Round), RoundIndex: cs.RoundIndex, Seed: seedHash(1000 + int(cs.Round%7)),
@@ -512,6 +527,9 @@ func build(c *Case) *built {
 	h.Certificate = enc(c.H.Cert, true)
 	if h.Hash() != b.hash {
 		panic("header hash depends on the vote containers")
+	}
+	if c.ext != nil && c.ext.mixBad {
+		h.MixDigest = common.Hash{}
 	}
 	b.header = h
 	return b
@@ -672,7 +690,19 @@ const (
 
 // caseCoq prints one case.  Proof, hash, priority and signature identifiers
 // are local to the case.
-func caseCoq(c *Case, b *built) string {
+// coqExt: what a header-path case adds to the projection of a case
+type coqExt struct {
+	thrs      []uint64 // more thresholds to tabulate
+	lbs       []LBS    // more validator sets (stakes and totals to tabulate)
+	parentID  int      // identifier of header.ParentHash
+	tables    string   // out: the oracle tables
+	hdr       string   // out: the header under verification
+	signerSet bool
+}
+
+func caseCoq(c *Case, b *built) string { return caseCoqExt(c, b, nil) }
+
+func caseCoqExt(c *Case, b *built, ext *coqExt) string {
 	proofIDs, hashIDs, prioIDs := newIDs(1), newIDs(1), newIDs(1)
 	type pu struct {
 		p  ProofS
@@ -757,6 +787,9 @@ func caseCoq(c *Case, b *built) string {
 	if c.H.ParentBad == 3 {
 		hdrParent = 1
 	}
+	if ext != nil {
+		hdrParent = ext.parentID
+	}
 	hdr := fmt.Sprintf("(mkH %d 0 %d 1 %s %s %s 1)", c.H.Number, hdrParent, cons, uvCoq(c.H.Val, false), uvCoq(c.H.Cert, true))
 	parent := "None"
 	if c.H.ParentBad != 1 {
@@ -777,8 +810,15 @@ func caseCoq(c *Case, b *built) string {
 	for _, v := range c.Vers {
 		thrs = append(thrs, v.CP.CVT)
 	}
+	tot := []uint64{b.total, b.certTotal}
+	if ext != nil {
+		thrs = append(thrs, ext.thrs...)
+		for _, l := range ext.lbs {
+			tot = append(tot, chamberTotal(l))
+		}
+	}
 	thrs = uniq(thrs)
-	totals := uniq([]uint64{b.total, b.certTotal})
+	totals := uniq(tot)
 	var vrfTbl, seatTbl, prioTbl, qTbl []string
 	for _, h := range honest {
 		pv := honestProof(h.p)
@@ -802,6 +842,15 @@ func caseCoq(c *Case, b *built) string {
 		for _, v := range c.CertLB.Vals {
 			if !v.MainBad && v.Key == h.p.Key {
 				stakes = append(stakes, v.Stake)
+			}
+		}
+		if ext != nil {
+			for _, l := range ext.lbs {
+				for _, v := range l.Vals {
+					if !v.MainBad && v.Key == h.p.Key {
+						stakes = append(stakes, v.Stake)
+					}
+				}
 			}
 		}
 		js := map[int64]bool{}
@@ -848,6 +897,9 @@ func caseCoq(c *Case, b *built) string {
 	variant := "asis"
 	if c.Variant == "fixed" {
 		variant = "fixed"
+	}
+	if ext != nil {
+		ext.tables, ext.hdr = tables, hdr
 	}
 	return fmt.Sprintf("mkCase %s\n %s\n (mkCP %d %d %d true) %s\n %s %s\n %s %s\n %s\n %s %d",
 		variant, tables, c.CP.PT, c.CP.VT, c.CP.CVT, vf.List(vers),
@@ -991,6 +1043,28 @@ type hit struct {
 	What string `json:"what"`
 	Case Case   `json:"case"`
 }
+type hhit struct {
+	What  string `json:"what"`
+	HCase HCase  `json:"hcase"`
+}
+
+func loadCorpusH(dir string) []HCase {
+	var out []HCase
+	files, _ := filepath.Glob(filepath.Join(dir, "h*.json"))
+	sort.Strings(files)
+	for _, f := range files {
+		b, err := ioutil.ReadFile(f)
+		if err != nil {
+			continue
+		}
+		var c HCase
+		if json.Unmarshal(b, &c) == nil && len(c.Chain) > 0 {
+			c.Comment = "corpus:" + filepath.Base(f)
+			out = append(out, c)
+		}
+	}
+	return out
+}
 
 // oracle returns the `what` keys of the violations an accepted case shows.
 func oracle(c *Case, b *built) []string {
@@ -1042,8 +1116,9 @@ func oracle(c *Case, b *built) []string {
 // ---- generators ---------------------------------------------------------------
 
 type gen struct {
-	r       *vf.Rng
-	variant string
+	forceCert bool
+	r         *vf.Rng
+	variant   string
 }
 
 func (g *gen) lookback(nKeysUsed int, big bool) LBS {
@@ -1482,7 +1557,7 @@ func (g *gen) one(res *vf.Result) Case {
 		c.CertH.Version = 2
 		c.CertH.CVT = c.Vers[1].CP.CVT
 	}
-	certRound := r.Chance(30)
+	certRound := r.Chance(30) || g.forceCert
 	if certRound {
 		c.H.Number = params.ACoCHTFrequency * uint64(1+r.Intn(3))
 	} else {
@@ -1903,7 +1978,7 @@ func runGen(seed uint64, n int, outDir, corpusDir, variant string) {
 	res := vf.NewResult("C01", seed)
 	g := &gen{r: r, variant: variant}
 	var sb strings.Builder
-	sb.WriteString("From VF.C01 Require Import Model.\nLocal Open Scope N_scope.\nDefinition cases : list case := [\n")
+	sb.WriteString("From VF.C01 Require Import Model ModelH.\nLocal Open Scope N_scope.\nDefinition cases : list tcase := [\n")
 	distinct := map[string]bool{}
 	perKey := map[string]int{}
 	count := 0
@@ -1915,7 +1990,7 @@ func runGen(seed uint64, n int, outDir, corpusDir, variant string) {
 			sb.WriteString(";\n")
 		}
 		txt := caseCoq(&c, b)
-		sb.WriteString(txt)
+		sb.WriteString("TSide (" + txt + ")")
 		count++
 		res.Count(verdictNames[c.Verdict])
 		if c.Verdict == 12 {
@@ -1939,18 +2014,68 @@ func runGen(seed uint64, n int, outDir, corpusDir, variant string) {
 			res.Samples = append(res.Samples, c)
 		}
 	}
+	emitH := func(hc HCase) {
+		hc.Verdict, hc.Err = 0, ""
+		hb := observeH(&hc)
+		bw := batchCheck(&hc, hb)
+		if count > 0 {
+			sb.WriteString(";\n")
+		}
+		txt := hc.coq(hb)
+		sb.WriteString(txt)
+		count++
+		res.Count("path:" + hc.Kind)
+		res.Count(hc.Kind + ":" + hverdictName(hc.Verdict))
+		if len(hb.parents) > 0 && hc.Kind == "header" {
+			res.Count("header:with_batch_prefix")
+			if len(hb.parents) >= roundBack {
+				res.Count("header:version_header_inside_batch")
+			}
+		}
+		if hc.Verdict == 0 && hc.Seal && hc.Kind == "header" {
+			res.Count("header:accept_with_seal_check")
+			if hc.C.H.Number%params.ACoCHTFrequency == 0 {
+				res.Count("header:accept_certificate_round")
+			}
+		}
+		distinct[txt] = true
+		ws := oracleH(&hc, hb)
+		if bw != "" {
+			ws = append(ws, whatBatch)
+			hc.Err = bw
+		}
+		for _, w := range ws {
+			res.Count("oracle:" + w)
+			if perKey[w] < 2 {
+				perKey[w]++
+				res.OracleHits = append(res.OracleHits, hhit{w, hc})
+			}
+		}
+		res.CaseDescs = append(res.CaseDescs, hc)
+		if len(res.Samples) < 6 && (count%131 == 1) {
+			res.Samples = append(res.Samples, hc)
+		}
+	}
 	for _, c := range loadCorpus(corpusDir) {
 		emit(c)
 		res.Count("corpus")
 	}
-	for count < n {
-		emit(g.one(res))
+	for _, hc := range loadCorpusH(corpusDir) {
+		emitH(hc)
+		res.Count("corpus")
 	}
-	sb.WriteString("].\nDefinition M := Eval vm_compute in mismatches cases.\nPrint M.\n")
+	for count < n {
+		if variant == "fixed" && r.Chance(40) {
+			emitH(g.hcase(res))
+		} else {
+			emit(g.one(res))
+		}
+	}
+	sb.WriteString("].\nDefinition M := Eval vm_compute in tmismatches cases.\nPrint M.\n")
 	vf.WriteFile(filepath.Join(outDir, "Cases.v"), sb.String())
 	res.Cases = count
 	res.Distinct = len(distinct)
-	res.Rule = "validator sets of 3-8 members with real secp256k1/BLS keys (roles chancellor/senator/house/invalid, on/offline, zero stake, undecodable keys, statistic inconsistent or empty), protocol thresholds real (26/2000/4000) or scaled down; an honest header is assembled (real VRF proposer credential, real precommit sortitions, votes trimmed to all / just-enough / one-short of the quorum, real BLS aggregate; certificate votes in certificate rounds) and then 0-3 forgeries applied out of 17 vote/aggregate forgeries, 6 threshold forgeries, 11 proposer forgeries, 8 header-signature forgeries, 8 framing forgeries, 3 whole-list certificate forgeries, or one of 14 'missing vote re-added in a corrupted form' attacks on a list that is one vote short; headers are sealed the way ucon's Seal does (crypto.Sign over Hash() with the proposer key); a case = full verifier input + implementation verdict; non-trivial = has votes or an undecodable consensus field; distinct by full projected input"
+	res.Rule = "validator sets of 3-8 members with real secp256k1/BLS keys (roles chancellor/senator/house/invalid, on/offline, zero stake, undecodable keys, statistic inconsistent or empty), protocol thresholds real (26/2000/4000) or scaled down; an honest header is assembled (real VRF proposer credential, real precommit sortitions, votes trimmed to all / just-enough / one-short of the quorum, real BLS aggregate; certificate votes in certificate rounds) and then 0-3 forgeries applied out of 17 vote/aggregate forgeries, 6 threshold forgeries, 11 proposer forgeries, 8 header-signature forgeries, 8 framing forgeries, 3 whole-list certificate forgeries, or one of 14 'missing vote re-added in a corrupted form' attacks on a list that is one vote short; headers are sealed the way ucon's Seal does (crypto.Sign over Hash() with the proposer key); about 40% of the cases go through the ordinary entry points instead (VerifyHeader / verifyHeader with a batch prefix of up to 14 headers / VerifyAcHeader) over a real core.HeaderChain on a memory database holding the look-back headers (version header at round-8, seed, stake, certificate seed and stake look-backs, each with decoy neighbours carrying other versions/seeds/validator roots), with 16 forgeries of the selection and of the header frame; VerifyHeaders is run on every batch and compared element by element with sequential verifyHeader; a case = full verifier input + implementation verdict; non-trivial = has votes or an undecodable consensus field; distinct by full projected input"
 	res.Extra["variant"] = variant
 	res.Write(filepath.Join(outDir, "result.json"))
 }
@@ -1962,9 +2087,33 @@ func runReplay(file string) {
 		os.Exit(2)
 	}
 	var w struct {
-		Case *Case `json:"case"`
+		Case  *Case  `json:"case"`
+		HCase *HCase `json:"hcase"`
+		Kind  string `json:"kind"`
 	}
 	var c Case
+	if json.Unmarshal(b, &w) == nil && (w.HCase != nil || w.Kind != "") {
+		var hc HCase
+		if w.HCase != nil {
+			hc = *w.HCase
+		} else if err := json.Unmarshal(b, &hc); err != nil {
+			fmt.Println(err)
+			os.Exit(2)
+		}
+		hb := observeH(&hc)
+		bw := batchCheck(&hc, hb)
+		fmt.Printf("verdict=%d (%s) %s\n", hc.Verdict, hverdictName(hc.Verdict), hc.Err)
+		ws := oracleH(&hc, hb)
+		if bw != "" {
+			ws = append(ws, whatBatch+": "+bw)
+		}
+		if len(ws) > 0 {
+			fmt.Println("ORACLE VIOLATION:", strings.Join(ws, ", "))
+			os.Exit(1)
+		}
+		fmt.Println("oracle: property holds on this input")
+		return
+	}
 	if json.Unmarshal(b, &w) == nil && w.Case != nil {
 		c = *w.Case
 	} else if err := json.Unmarshal(b, &c); err != nil {
